@@ -18,9 +18,10 @@ def main():
     master = int(sys.argv[4]) if len(sys.argv) > 4 else 0
     core.bootstrap()
     results, wall, capped = core.sweep(pid, 'quick', master, n, workers, 10_000, chunk=2)
+    from .. import props
+    prop = props.load(pid)
     for r in results:
-        body = {'violations': r['violations'], 'stats': r['stats'], 'keys': r['keys'], 'harness': bool(r.get('harness'))}
-        print(r['index'], r['seed'], core.digest(body))
+        print(r['index'], r['seed'], core.run_digest(r, prop))
     print('#', pid, 'runs', len(results), 'wall', round(wall, 1), file=sys.stderr)
 
 
